@@ -446,7 +446,7 @@ def rule_inverse(rep, tier):
     rid = "C02.D6"
     rep.rule(rid, "decrypt(encrypt(m)) = m with success; unrelated tag rejected and plaintext wiped (bounded shapes)")
     prep = modes.prepare(tier)
-    shapes = [(0, 0), (1, 1), (8, 9), (17, 33)] if tier == "quick" else [(a, n) for a in (0, 1, 8, 9, 17) for n in (0, 1, 7, 8, 9, 16, 17, 33)]
+    shapes = [(0, 0), (1, 1), (8, 9), (17, 33)] if tier == "quick" else [(a, n) for a in (0, 1, 7, 8, 9, 16, 17, 33) for n in tuple(range(0, 35)) + (63, 64, 65, 129, 1000)]
     cases = []
     for js, cname, layout, maxs, units in prep:
         if cname not in rep.configs:
